@@ -112,6 +112,9 @@ class TypeOverwriting(Transformation):
                 for i, t_param in enumerate(type_parameters)
             }
             n.t.type_args[indexes[type_param.t]] = ir_type
+            # The overwritten type argument must be printed, even if type
+            # erasure has marked the type arguments as inferable.
+            n.t.can_infer_type_args = False
         self.is_transformed = True
         self.error_injected = "{} expected but {} found in node {}".format(
             str(old_type), str(ir_type), n.node_id)
